@@ -3,6 +3,7 @@
   (`findBug`, `doCheck` are functions of `(p, checks, seed, early, files, cands)`: the second half
   is definitional in the model and tied to the code by the correspondence check.)
 -/
+import RapidModel.Generated.Consts
 import RapidProofs.Shrink
 
 namespace Rapid.C07
@@ -48,5 +49,15 @@ theorem reported_seed_reproduces (p : Prog) (checks : Nat) (seed : UInt64) (earl
   exact first_case_fails p _ e hrun hinv checks' hc early'
 
 example : tri 1 = 0 ∧ tri 2 = 1 ∧ tri 4 = 6 := by decide
+
+/-! ### facts re-read from /repo's source on every run -/
+
+/-- the seed step of `findBug` as written in the source -/
+theorem seed_step_source : Rapid.Generated.src_seedStep = "seed += uint64(iter)" := by decide
+
+/-- the jsf64 constants of the source are those of the model -/
+theorem jsf_constants_source :
+    Rapid.Generated.jsf_initA = jsfInitA.toNat ∧ Rapid.Generated.jsf_rounds = jsfWarmRounds ∧
+    Rapid.Generated.jsf_rotations = [7, 13, 37] := by decide
 
 end Rapid.C07
